@@ -1,12 +1,14 @@
-(** C02 — verdict functions for harness/cmd/c02: schedules on the ID-multiplexed connection (Judge.Tdc)
-    and on the non-pipelined transport (Judge.Reuse). *)
+(** C02 — verdict functions for harness/cmd/c02: schedules on the ID-multiplexed connection (Judge.Tdc),
+    on the non-pipelined transport (Judge.Reuse) and on the pipeline transport's retry loop around dummy
+    connections (Judge.PPool: a reply handed up by a connection is returned whatever happened to the caller's
+    context meanwhile). *)
 From Verif Require Import Base.Prelude.
-From Verif Require Judge.Tdc Judge.Reuse.
-Export Judge.Tdc Judge.Reuse.
-Inductive case := KTdc (c : Judge.Tdc.case) | KReuse (c : Judge.Reuse.case).
+From Verif Require Judge.Tdc Judge.Reuse Judge.PPool.
+Export Judge.Tdc Judge.Reuse Judge.PPool.
+Inductive case := KTdc (c : Judge.Tdc.case) | KReuse (c : Judge.Reuse.case) | KPool (c : Judge.PPool.case).
 Definition agree (c : case) : bool :=
-  match c with KTdc x => Judge.Tdc.agree x | KReuse x => Judge.Reuse.agree x end.
+  match c with KTdc x => Judge.Tdc.agree x | KReuse x => Judge.Reuse.agree x | KPool x => Judge.PPool.agree x end.
 Definition spec (c : case) : bool :=
-  match c with KTdc x => Judge.Tdc.spec_c02 x | KReuse x => Judge.Reuse.spec_c02 x end.
+  match c with KTdc x => Judge.Tdc.spec_c02 x | KReuse x => Judge.Reuse.spec_c02 x | KPool x => Judge.PPool.spec_c02 x end.
 Definition nontrivial (c : case) : bool :=
-  match c with KTdc x => Judge.Tdc.nontrivial_c02 x | KReuse x => Judge.Reuse.nontrivial x end.
+  match c with KTdc x => Judge.Tdc.nontrivial_c02 x | KReuse x => Judge.Reuse.nontrivial x | KPool x => Judge.PPool.nontrivial_c02 x end.
